@@ -26,6 +26,10 @@ def mkexc():
     return ValueError("x")
 class Thing:
     pass
+class Other:
+    pass
+class Documented:
+    """A documented class."""
 def say(text):
     print(text)
 def say_quiet():
